@@ -39,7 +39,7 @@ def cases(draw):
     for _ in range(draw(st.integers(1, 6))):
         reads.append({"burn_u": draw(st.floats(0, 1.1)), "thin_u": draw(st.one_of(st.sampled_from([0.0, 0.0]), st.floats(0, 1.1))),
                       "burn_edge": draw(st.sampled_from([None, None, 0, -1, -2, 1, 2, 3])),
-                      "index": draw(st.integers(0, 3)), "interval": draw(st.one_of(st.sampled_from([0.95, 0.5]), st.floats(0.02, 0.98))),
+                      "index": draw(st.integers(0, 3)), "interval": draw(st.one_of(st.sampled_from([0.95, 0.5, 0.9, 0.8]), st.floats(0.02, 0.98), st.sampled_from([1e-4, 1e-3, 0.999, 0.9999]))),
                       "samples_u": draw(st.one_of(st.none(), st.floats(0, 2))), "marginal": draw(st.sampled_from([False, False, True]))})
     cfg["reads"] = reads
     # second phase on the same (by now already read-out) sampler: more steps, a tempering exchange of the last point, a save / load,
